@@ -21,8 +21,8 @@
 //!           check(read_data) is clean and every snapshot reads back, and a fault-free retry succeeds and is clean again; then
 //!           the prune runs fault-free on the history's own store (like `p`)
 //!     z<prune spec>/<i>  that prune, interrupted: the removal of the old index file(s) listing the root tree of live snapshot i
-//!           fails (must be reported as Err); the history goes on from the state left behind (rebuilt index + old index file =
-//!           duplicate index entries)
+//!           fails (must be reported as Err) while the removals of the other old index files — they run in parallel — all
+//!           take effect; the history goes on from that state (rebuilt index + surviving old index file = duplicate entries)
 //!     o<m>  from now on prune's index files are listed and served smallest first (1) / largest first (2) / uncontrolled (0)
 //!     g<c>  (first step only) the repository uses the fixed-size chunker with c-byte chunks
 //!     l<k>,<n>  backup of source version k plus a file of n distinct 8-byte records (index files with >= MIN_INDEX_LEN blobs)
@@ -183,6 +183,8 @@ struct Ran {
     n: usize,
     /// position of the last pack write that is not cacheable (= data pack) / of the first index write
     last_data_pack_write: Option<usize>,
+    /// the index files the plan rebuilds (= removes after writing the new index)
+    rebuild: Vec<Id>,
 }
 
 fn op_kind(o: &repo::LogOp) -> &'static str {
@@ -245,6 +247,7 @@ fn prune_run(h: &RepoHandle, spec: &str, step: usize, marked_at: &mut BTreeMap<I
         }
     }
     // the plan with the injected time is the one that is executed: every time the run writes is `now`
+    let rebuild: Vec<Id> = rep.rebuild.iter().map(|i| **i).collect();
     let plan = rep.plan;
     h.be.clear_log();
     match fault {
@@ -269,6 +272,7 @@ fn prune_run(h: &RepoHandle, spec: &str, step: usize, marked_at: &mut BTreeMap<I
         failed,
         n: full_log.len(),
         last_data_pack_write: full_log.iter().rposition(|o| o.write && o.tpe == FileType::Pack && !o.cacheable),
+        rebuild,
     };
     // the oracles below look at what was really done to the store
     let log: Vec<repo::LogOp> = full_log.into_iter().filter(|o| o.applied).collect();
@@ -572,7 +576,20 @@ pub fn exec_hist(t: &[&str]) -> String {
                     .filter(|(_, f)| f.packs.iter().any(|p| p.blobs.iter().any(|b| b.tpe == BlobType::Tree && *b.id == root)))
                     .map(|(id, _)| id)
                     .collect();
-                let ran = prune_run(&h, spec, si, &mut marked_at, &Fault::RemoveIndex(ids), order)?;
+                let ran = prune_run(&h, spec, si, &mut marked_at, &Fault::RemoveIndex(ids.clone()), order)?;
+                if ran.failed.is_some() && !ran.ok {
+                    // The old index files are removed in parallel, in no particular order (`delete_list`); once one removal has
+                    // failed the others may or may not have been done.  The history continues from the state in which they all
+                    // were: exactly the index files whose removal failed survive next to the rebuilt index.
+                    for id in ran.rebuild.iter().filter(|id| !ids.contains(id)) {
+                        h.be.del_raw(FileType::Index, id);
+                    }
+                }
+                if std::env::var("VH_DEBUG").is_ok() {
+                    let mut sizes: Vec<usize> = h.be.ids(FileType::Index).iter().map(|id| h.be.get(FileType::Index, id).map_or(0, |b| b.len())).collect();
+                    sizes.sort_unstable();
+                    eprintln!("step {si}: interrupted prune ok={} failed={:?} n={}; index files now (bytes): {sizes:?}", ran.ok, ran.failed.as_ref().map(op_kind), ran.n);
+                }
                 if ran.ok && ran.failed.is_some() {
                     return Err(fail("prune-ok-despite-failed-index-remove", si));
                 }
@@ -1074,7 +1091,8 @@ pub fn gen_hist_big(rng: &mut Rng, stats: &mut Stats, directed: bool) -> String 
     let mut p = rand_prune(rng, true);
     p.flags[4] = directed || rng.chance(3, 4);
     if directed {
-        // nothing else to do for the merged index file: no repacking
+        // nothing else to do for the merged index file: no repacking; the unused packs are not protected by keep-pack
+        p.kp = 0;
         p.flags[0] = false;
         p.flags[1] = false;
         p.flags[2] = false;
